@@ -419,20 +419,29 @@ class SimulationAlgorithm(BaseSimulationAlgorithm):
                 - individual_parameters_from_model_parameters[f"sources_{i}"].mean()
             ) / individual_parameters_from_model_parameters[f"sources_{i}"].std()
 
-        patient_source_values_matrix = torch.stack(
-            [
-                torch.tensor(
-                    individual_parameters_from_model_parameters[f"sources_{i}"].values,
-                    dtype=torch.float32,
-                )
-                for i in range(model.source_dimension)
-            ],
-            dim=1,
-        )
-        mixing_matrix = model.state.get_tensor_value("mixing_matrix")
-        result = torch.matmul(
-            mixing_matrix.transpose(0, 1), patient_source_values_matrix.transpose(0, 1)
-        )
+        if model.source_dimension:
+            patient_source_values_matrix = torch.stack(
+                [
+                    torch.tensor(
+                        individual_parameters_from_model_parameters[
+                            f"sources_{i}"
+                        ].values,
+                        dtype=torch.float32,
+                    )
+                    for i in range(model.source_dimension)
+                ],
+                dim=1,
+            )
+            mixing_matrix = model.state.get_tensor_value("mixing_matrix")
+            result = torch.matmul(
+                mixing_matrix.transpose(0, 1),
+                patient_source_values_matrix.transpose(0, 1),
+            )
+        else:
+            # a model without sources has no space shifts
+            result = torch.zeros(
+                (len(self.features), self.param_study["patient_number"])
+            )
 
         space_shifts = pd.DataFrame(
             result.T,
